@@ -208,6 +208,9 @@ def insert_core(ctx, R1="C08.R1", R2="C08.R2", R3="C08.R3", R4="C08.R4") -> None
                   f"the copy loop relies on parents being visited before children but iterates `{u(nl.iter)}` (index order); with reused indices "
                   "a child comes first and insertion raises ParentBeforeChild instead of returning a mapping", nl,
                   detail=f"order from {h2.name if h2 else ''}()")
+    if h2 is not None:
+        from .c03 import sibling_order_rule
+        sibling_order_rule(ctx, h2, R4, hugr)
 
 
 def insert_wrappers(ctx, R5="C08.R5") -> None:
